@@ -103,6 +103,8 @@ def run(ctx) -> None:
     import context_probes as CP
     CP.diag_history_probe(ctx, "C11", ctx.n(12, 300))
     CP.merged_readings_probe(ctx, "C11", ctx.n(8, 200))
+    from props.C08 import run_arrivals_correspondence
+    run_arrivals_correspondence(ctx, "C11", ctx.n(40, 1000))
     extreme_probe(ctx, ctx.n(30, 600))
     run_screen_correspondence(ctx, "C11", ctx.n(40, 500))
     if F is not None:
